@@ -56,7 +56,7 @@ class Engine(StmtMixin, CallMixin, ExprMixin, EngineBase):
     def verify(self, short, fn=None):
         """symbolically execute the real AST of contract `short`; returns stats. Obligations go to self.obls."""
         k = self.m.contracts[short]
-        qual = k["where"]
+        qual = k.get("where")
         fn = fn if fn is not None else extract.find(qual)
         self.cur, self.cur_contract = short, k
         self.index_sites(fn)
